@@ -87,6 +87,20 @@ example :
     let s1 := reach cfg [.user .start, .tick, .req 0 true, .tick]
     s1.events = [] ∧ s1.stale = [] ∧ s1.objs = [] ∧ s1.paused = true := by decide +kernel
 
+/-- **Complete and then raise.** A command of `cfg.completeFirst` calls `set_complete()` in its failing iteration
+before the exception (a final hardware write that fails): the failure clean-up finds a *completed* instance — and
+still finalizes it exactly once and releases it; the record shows the command failed.  (Non-vacuity of
+`callbacks_paired` / `finalized_iff_released` on the "already completed" branch of `_cancel_command`.) -/
+example :
+    let cfg : Cfg := { cmds := [⟨6, some 1⟩], completeFirst := [0] }
+    let s := reach cfg [.user .start, .tick, .req 0, .tick, .tick]
+    s.events = [.init 0, .exec 0 0 0, .exec 0 0 1, .final 0] ∧ liveObjs s = [] ∧ s.executing = [] ∧
+    s.objs.map (fun o => (o.complete, o.cancelled, o.finalized, o.inMap)) = [(true, false, true, false)] ∧
+    s.track.map (fun t => t.marks.map (·.1)) = [[.created, .started, .cmdSet, .failed]] ∧
+    -- the next request of that command gets a new instance
+    (reach cfg [.user .start, .tick, .req 0, .tick, .tick, .pause false, .req 0, .tick]).events =
+      [.init 0, .exec 0 0 0, .exec 0 0 1, .final 0, .init 1, .exec 1 0 0] := by decide +kernel
+
 /-- Every callback belongs to an instance that was created. -/
 theorem callbacks_have_instances (cfg : Cfg) (hfix : cfg.fixCancel = true) (ops : List Op) :
     ∀ e ∈ (reach cfg ops).events, e.serial < (reach cfg ops).objs.length :=
